@@ -85,13 +85,14 @@ uts.domainname = (none)
 """
 
 
-def diskdump(d, name="dd", methods=("raw", "zlib", "zlib", "raw", "zlib", "raw"), extra="", vmcoreinfo=None):
+def diskdump(d, name="dd", methods=("raw", "zlib", "zlib", "raw", "zlib", "raw"), extra="", vmcoreinfo=None,
+             arch="x86_64"):
     data = os.path.join(d, name + ".data")
     with open(data, "w") as f:
         for (addr, body), m in zip(PAGES, methods):
             f.write("@%#x %s\n%s\n" % (addr, m, body))
-    params = ("version = 6\narch_name = x86_64\nblock_size = 4096\nphys_base = 0\nmax_mapnr = 0x3000\n"
-              "sub_hdr_size = 1\n" + UTS + "nr_cpus = 1\n" + extra + "DATA = %s\n" % data)
+    params = ("version = 6\narch_name = %s\nblock_size = 4096\nphys_base = 0\nmax_mapnr = 0x3000\n"
+              "sub_hdr_size = 1\n" % arch + UTS.replace("x86_64", {"ia32": "i686"}.get(arch, arch)) + "nr_cpus = 1\n" + extra + "DATA = %s\n" % data)
     if vmcoreinfo:
         vf = os.path.join(d, name + ".vmcoreinfo")
         with open(vf, "w") as f:
